@@ -163,6 +163,7 @@ func genBundle(r *R, opts FlatOpts, plus bool, thorough bool, force map[string]b
 	flag("security", 45)
 	flag("opMedia", 35)
 	flag("paramEnums", 35)
+	flag("mangleTwins", 15)
 	naux := 0
 	switch x := r.Intn(10); {
 	case x < 2:
@@ -193,6 +194,10 @@ func genBundle(r *R, opts FlatOpts, plus bool, thorough bool, force map[string]b
 		g.feat["paramRefs"], g.feat["respRefs"] = true, true
 		g.feat["pathItemRefs"], g.feat["anonPtr"], g.feat["anonPtrShared"], g.feat["recursion"], g.feat["collideGenerated"] = false, false, false, false, false
 		g.rootNoRef = true
+	}
+	if g.on("mangleTwins") && naux > 0 && !g.on("rootNoDefs") && !g.on("auxOnlyViaShared") && r.P(70) {
+		// the twins are most interesting when one of them refers to a colliding import
+		g.feat["collide"] = true
 	}
 	if opts.Expand || opts.Minimal && false {
 		g.feat["anonPtr"] = false
@@ -276,6 +281,11 @@ func genBundle(r *R, opts FlatOpts, plus bool, thorough bool, force map[string]b
 	}
 	if g.on("caseSiblings") {
 		g.plantCaseSiblings()
+	}
+	if g.on("mangleTwins") && !g.on("rootNoDefs") && !g.on("auxOnlyViaShared") && !opts.KeepNames {
+		g.plantMangleTwins()
+	} else {
+		g.feat["mangleTwins"] = false
 	}
 	if g.on("sameDirTwins") {
 		g.plantSameDirTwins()
@@ -1452,5 +1462,67 @@ func (g *bundleGen) plantAnonPointers() {
 				rd.paths[p] = obj{"post": op}
 			}
 		}
+	}
+}
+
+// plantMangleTwins: two sibling inline complex properties of one root definition whose names differ but are mangled to
+// the same generated name ('x-y' / 'x_y' give <def>XY): full flattening names the second one <def>XYOAIGen, a
+// de-duplication artefact that is later merged back. One twin refers to a colliding import when the bundle has one
+// (itself imported as <name>OAIGen), and a further definition refers to the same import: two nested OAIGen entries,
+// the order of whose merging matters.
+func (g *bundleGen) plantMangleTwins() {
+	r := g.r
+	rd := g.docs[0]
+	pairs := [][2]string{{"x-y", "x_y"}, {"part one", "part-one"}, {"k_v", "k v"}, {"in-line", "in line"}}
+	pr := pairs[r.Intn(len(pairs))]
+	// pr[1] receives the $ref; mostly it is the twin that sorts second, i.e. the one that gets the OAIGen name
+	if (pr[0] < pr[1]) != r.P(75) {
+		pr[0], pr[1] = pr[1], pr[0]
+	}
+	var ref obj
+	for _, ad := range g.docs[1:] {
+		for _, n := range ad.defNames {
+			if !ad.refFree[n] {
+				continue
+			}
+			for _, k := range rd.defNames {
+				if strings.EqualFold(k, n) && ref == nil {
+					ref = obj{"$ref": refTo(rd, ad, "definitions", n)}
+				}
+			}
+		}
+	}
+	if ref == nil {
+		if rs, ok := g.refSchema(rd); ok && r.P(70) {
+			ref = rs
+		} else {
+			ref = g.primitive()
+		}
+	}
+	// the holder mostly sorts before, the further referrer after, the other definitions of the root
+	holder := r.Pick([]string{"B", "a1", "Abox", "twins"})
+	second := r.Pick([]string{"d", "zlast", "m2"})
+	for _, n := range []string{holder, second} {
+		for _, k := range rd.defNames {
+			if strings.EqualFold(k, n) {
+				return
+			}
+		}
+		for _, ad := range g.docs[1:] {
+			for _, k := range ad.defNames {
+				if strings.EqualFold(k, n) {
+					return
+				}
+			}
+		}
+	}
+	g.addRootDef(holder, obj{"type": "object", "properties": obj{
+		pr[0]: obj{"type": "object", "properties": obj{"v": g.primitive()}},
+		pr[1]: obj{"type": "object", "properties": obj{"w": deepCopy(ref)}},
+	}})
+	g.addRootDef(second, obj{"type": "object", "properties": obj{"again": deepCopy(ref)}})
+	g.addRootOp("/mangled", obj{"$ref": mkRef("", "definitions", holder)})
+	if r.P(60) {
+		g.addRootOp("/mangled2", obj{"$ref": mkRef("", "definitions", second)})
 	}
 }
